@@ -212,6 +212,31 @@ def real_load_url(schema, url, overrides=()):
         return ("internal", e, zf, inner)
 
 
+def real_load_by_hand(schema, text, url=MAIN):
+    """The building blocks of a load used directly: a fresh ConfigLoader as context, a resource
+    made from the text, a ZConfigParser driven by hand, the schema matcher finished by hand."""
+    ZConfig = zc()
+    import ZConfig.cfgparser
+    import ZConfig.loader
+    try:
+        loader = ZConfig.loader.ConfigLoader(schema)
+        r = loader.createResource(io.StringIO(text), url)
+        try:
+            sm = loader.createSchemaMatcher()
+            ZConfig.cfgparser.ZConfigParser(r, loader).parse(sm)
+            cfg = sm.finish()
+        finally:
+            r.close()
+        return ("ok", cfg, None)
+    except ZConfig.ConfigurationError as e:
+        return ("reject", e)
+    except RecursionError as e:
+        return ("internal", e, "recursion", "recursion")
+    except Exception as e:  # noqa
+        zf, inner = innermost_zconfig_frame(e)
+        return ("internal", e, zf, inner)
+
+
 def real_load_with(loader, text, url=MAIN):
     """Load through an existing loader object (to exercise several loads by one loader)."""
     ZConfig = zc()
